@@ -457,7 +457,9 @@ impl IntoSqlBuilder for LiteralsAndKeywords {
                     message: "FStringList not implemented yet".to_string(),
                 }))
             }
-            LiteralsAndKeywords::StringLit(val) => format!("'{}'", val),
+            // the only character that is special inside a standard SQL string literal
+            // is the quote itself, which is written twice
+            LiteralsAndKeywords::StringLit(val) => format!("'{}'", val.replace('\'', "''")),
             LiteralsAndKeywords::ByteStringLit(_) => {
                 return Ok(Box::new(UnsupportedBuilder {
                     message: "ByteStringLit not implemented yet".to_string(),
